@@ -475,6 +475,23 @@ theorem readTransfer_res_eof (meth : Bytes) (code maj min : Nat) (c0 : Bool) (hs
   simp [vals_eq_nil_of_has hs teKey hte, del_eq_self_of_has hs teKey hte, vals_eq_nil_of_has hs clKey hcl,
     hhead, hst, hba]
 
+/-- Answer to HEAD without `Transfer-Encoding`: no body whatever the length field says; the
+`ContentLength` field reports the announced length, `-1` when there is none. -/
+theorem readTransfer_res_head_cl (code maj min : Nat) (c0 : Bool) (hs : List KV) (v : Bytes) (n : Nat)
+    (hte : has hs teKey = false) (hcl : vals hs clKey = [v])
+    (hv : (trimLWS v).isEmpty = false) (hp : parseCL v = some n) :
+    readTransfer true headTok code maj min c0 hs =
+      .ok { hdr := hs, chunked := false, cl := n, close := c0, decl := none, body := .none } := by
+  unfold readTransfer
+  simp [vals_eq_nil_of_has hs teKey hte, del_eq_self_of_has hs teKey hte, hcl, hv, hp]
+
+theorem readTransfer_res_head_none (code maj min : Nat) (c0 : Bool) (hs : List KV)
+    (hte : has hs teKey = false) (hcl : has hs clKey = false) :
+    readTransfer true headTok code maj min c0 hs =
+      .ok { hdr := hs, chunked := false, cl := -1, close := c0, decl := none, body := .none } := by
+  unfold readTransfer
+  simp [vals_eq_nil_of_has hs teKey hte, del_eq_self_of_has hs teKey hte, vals_eq_nil_of_has hs clKey hcl]
+
 /-! ### hexadecimal chunk sizes -/
 
 theorem hexDigits_length_le (n : Nat) : ∀ k, n < 16 ^ (k + 1) → (hexDigits n).length ≤ k + 1 := by
